@@ -615,6 +615,78 @@ func hasKind(o obsCall, kind string) bool {
 	return false
 }
 
+// runBogusAdvert (domain audit): a request that carries a stale, malformed or
+// mis-sized segment advertisement but ships everything inline. The statement
+// compares an advertising session with a plain one; a segment the server cannot
+// attach must degrade to the plain behaviour (shmConnState.ensure documents
+// "failures are silently degraded into no shm"), and the session continues.
+func runBogusAdvert(r reporter, idx int) {
+	rng := r.Rand(4, uint64(idx))
+	kind := bogusKinds[idx%len(bogusKinds)]
+	name := newName()
+	size := shmref.HeaderSize + 4096 + rng.IntN(100000)
+	m, err := shmref.Create(name, size)
+	if err != nil {
+		r.Fatal("probe segment: %v", err)
+	}
+	defer func() { m.Close(); shmref.Unlink(name) }()
+	mk := func(method string) callSpec {
+		cs := callSpec{Method: method, P: P{Seed: int64(1 + rng.IntN(500)), N: sizeKnob(rng, rng.IntN(2) == 0), Logs: int64(rng.IntN(2))}}
+		switch method {
+		case "produce":
+			cs.P.Count, cs.P.Rows = int64(1+rng.IntN(3)), int64(1+rng.IntN(8))
+			cs.P.N %= 300
+		case "exchange":
+			cs.Turns, cs.InRows, cs.InLen = 1+rng.IntN(3), 1+rng.IntN(6), rng.IntN(300)
+			cs.P.N = 1
+		}
+		return cs
+	}
+	methods := []string{"blob", "void", "produce", "exchange"}
+	calls := []callSpec{mk(methods[rng.IntN(4)]), mk(methods[rng.IntN(4)]), mk(methods[rng.IntN(4)])}
+	if kind == "name-without-slash" {
+		// a VALID spelling (documented leading-slash fallback): the server attaches and may answer
+		// through the segment; this probe's client has no mapping, so keep the call unary and large
+		calls[1] = mk("blob")
+		calls[1].P.N = 2000
+	}
+	ref := history{Index: idx, Fit: "n/a", Adv: "bogus", Calls: append([]callSpec{}, calls...)}
+	calls[1].BogusAdv, calls[1].BogusName, calls[1].BogusSize = kind, name, size
+	h := history{Index: idx, Fit: "n/a", Adv: "bogus", Calls: calls}
+	got := runSession(r, h, false)
+	want := runSession(r, ref, false)
+	witness := map[string]any{"bogus_advert": kind, "history": h, "observed": got, "plain_session": want}
+	r.Class("bogus-advert:" + kind)
+	r.Case(fmt.Sprintf("bogus|%s|%s|%s|%s", kind, calls[0].Method, calls[1].Method, calls[2].Method))
+	if want.Deadlock || want.ServerPanic != "" || len(want.Obs) != 3 {
+		r.Class("plain-session-broken")
+		return
+	}
+	switch {
+	case got.ServerPanic != "":
+		r.Violation("bogus-advert:"+kind+":server-panic", "a panic escaped Serve after a request advertising an unusable segment: "+strings.SplitN(got.ServerPanic, "\n", 2)[0], witness)
+		return
+	case got.Deadlock || len(got.Obs) != 3:
+		r.Violation("bogus-advert:"+kind+":session-stuck", "the session did not continue after a request advertising an unusable segment", witness)
+		return
+	}
+	for i := range calls {
+		// a usable advertisement (name-without-slash) may legitimately ship results through
+		// the segment the client cannot resolve here (it has none) — compare only when inline
+		if what, detail := firstDiff(got.Obs[i], want.Obs[i]); what != "" {
+			if kind == "name-without-slash" && strings.Contains(got.Obs[i].render(), "pointer-unresolvable") {
+				r.Class("bogus-advert:name-without-slash-attached")
+				continue
+			}
+			r.Violation("bogus-advert:"+kind+":"+what, fmt.Sprintf("call %d observed differently from the plain session after an unusable advertisement (%s)", i, detail), witness)
+			return
+		}
+	}
+	if hdr := m.Header(); len(hdr.Entries) != 0 && kind != "name-without-slash" {
+		r.Violation("bogus-advert:"+kind+":table-touched", "the server allocated in a segment whose advertisement it should have refused", witness)
+	}
+}
+
 func runUnadvertised(r reporter, idx int) {
 	rng := r.Rand(2, uint64(idx))
 	scen := []string{"unary-request", "stream-request", "exchange-input"}[idx%3]
@@ -713,6 +785,7 @@ func main() {
 		"advertise:every", "advertise:first-only", "advertise:random", "segment-changed-mid-connection", "error-mid-stream",
 		"init-error-with-pointer-input", "pointer-request-on-cached-segment", "advertised-but-inline:none", "advertised-but-inline:some",
 		"unadvertised:unary-request", "unadvertised:stream-request", "unadvertised:exchange-input",
+		"bogus-advert:missing-name", "bogus-advert:size-too-big", "bogus-advert:size-too-small", "bogus-advert:size-huge", "bogus-advert:name-without-slash",
 		"advertise:once:unary-pointer-request", "advertise:once:producer-pointer-request", "advertise:once:exchange-pointer-request",
 		"advertise:once:stream-pointer-input", "advertise:some:stream-pointer-input", "advertise:some:exchange-pointer-request",
 		"threshold-0:via-shm:unary", "threshold-0:via-shm:producer", "threshold-0:via-shm:exchange",
@@ -720,6 +793,7 @@ func main() {
 
 	nDiff := r.N(300, 10000)
 	nNeg := r.N(60, 1500)
+	nBogus := len(bogusKinds) * r.N(4, 60)
 	workers := r.N(4, 12)
 	tot := &totals{}
 	var wg sync.WaitGroup
@@ -735,6 +809,8 @@ func main() {
 					runDifferential(r, i, tot)
 				case i < nDiff+nNeg:
 					runUnadvertised(r, i-nDiff)
+				case i < nDiff+nNeg+nBogus:
+					runBogusAdvert(r, i-nDiff-nNeg)
 				default:
 					return
 				}
